@@ -67,7 +67,7 @@ MACH_TB = ["net/http, encoding/json, encoding/base64, pquerna/otp, x/crypto/bcry
 PROPS = {
     "C01": {
         "ties": MACH_TIES,
-        "streams": {"quick": [MACH_QUICK], "thorough": [MACH_THOROUGH]},
+        "streams": {"quick": [MACH_QUICK], "thorough": [MACH_THOROUGH], "search": [{"name": "c18r", "n": 100, "seeds": 6}, MACH_THOROUGH]},
         "level": "proof",
         "assumptions": [SYMBOLIC,
                         "for the second-factor routes and the remember cookie the licence is stated through the success of the verifying sub-computation (totpValidate / smsVerdict / useToken); remember's is unfolded to the stored token",
@@ -76,10 +76,10 @@ PROPS = {
     },
     "C03": {
         "ties": MACH_TIES,
-        "streams": {"quick": [MACH_QUICK], "thorough": [MACH_THOROUGH]},
+        "streams": {"quick": [MACH_QUICK], "thorough": [MACH_THOROUGH], "search": [{"name": "c18r", "n": 100, "seeds": 6}, MACH_THOROUGH]},
         "level": "proof",
         "assumptions": [SYMBOLIC,
-                        "the handler-level link (no session write when the named account is locked/unconfirmed) is proven for the password login; for the other flows the same veto theorems apply to the Before(EventAuth)/Before(EventOAuth2) call that their route theorems (C01) show on the path, and the behaviour is checked by the differential stream and the trace monitor",
+                        "the handler-level link (no session identity is written when the account is locked/unconfirmed) is proven for the password, one-time-password, TOTP, SMS and recover-login flows, and for existing locked accounts on the OAuth2 callback",
                         "OAuth2 accounts are created confirmed by the application's storer (confirm registers no Before(EventOAuth2) handler; DESIGN 6-F12)"],
         "trusted_base": MACH_TB,
     },
@@ -113,7 +113,7 @@ def _mach_prop(assumptions, extra_streams_quick=None, extra_streams_thorough=Non
     return {
         "ties": MACH_TIES,
         "streams": dict({"quick": (extra_streams_quick or []) + [MACH_QUICK], "thorough": (extra_streams_thorough or []) + [MACH_THOROUGH]},
-                        **({"search": search + [MACH_THOROUGH]} if search else {})),
+                        **{"search": (search or [{"name": "c18r", "n": 100, "seeds": 6}]) + [MACH_THOROUGH]}),
         "level": "proof",
         "assumptions": [SYMBOLIC] + assumptions,
         "trusted_base": MACH_TB,
@@ -122,13 +122,14 @@ def _mach_prop(assumptions, extra_streams_quick=None, extra_streams_thorough=Non
 PROPS.update({
     "C02": _mach_prop(["TOTP validity is an oracle (the real pquerna/otp under the harness)",
                        "the SMS code is compared with the code in the session, unbound to the destination: known finding F9 (theorem C02_sms_verdict_ignores_user is its model-side witness)",
-                       "parking is proven for the totp hijacker at the head of the chain and for every chain once handled; the sms hijacker's parking and the both-factors case are covered by the differential stream and the monitor"]),
+                       "parking is proven for every load order and module set containing the enrolled factor's module (C02_parks_any_order)"]),
     "C07": _mach_prop(search=[{"name": "c18r", "n": 150, "seeds": 8}], assumptions=["the codec theorem is over all byte strings; single-use is proven on the storage operation (one occurrence erased); history-level counting is monitored on real traces"]),
     "C09": _mach_prop(["time stamps have one-second resolution (RFC 3339): known finding K1, with kernel-checked witness",
                        "expire.Setup stamps on After(EventAuth) only: OAuth2 / registration / remember logins start the idle clock at the next request (DESIGN 6-F11)"]),
     "C10": _mach_prop(["the logout response's own flash message is not 'left behind' state"]),
     "C12": _mach_prop(["replay protection for TOTP needs the application's user type to implement UserOneTime"]),
-    "C14": _mach_prop(["'identifier separator' is the character ';' (sharp boundary proven)"]),
+    "C14": _mach_prop(["'identifier separator' is the character ';' (sharp boundary proven)"],
+                      extra_streams_quick=[{"name": "c14", "n": 20000}], extra_streams_thorough=[{"name": "c14", "n": 400000, "seeds": 2}]),
 })
 
 PROPS.update({
@@ -147,7 +148,7 @@ PROPS.update({
 PROPS.update({
     "C05": _mach_prop(["selectors/verifiers are represented by their pre-images (injective SHA-512): 'decodes to exactly the issued bytes' is equality with selector++verifier",
                        "base64 decoding is outside the model (the request carries the decoded bytes or 'undecodable'); alternative spellings of the same bytes are therefore the same token by construction; the harness decodes with the real encoding/base64",
-                       "the reject-frame theorem is proven for recovery; confirmation has the same shape and is covered by the differential stream (store diff on every rejected submission) and the monitor"]),
+                       "accept / reject-frame theorems are proven for both recovery and confirmation"]),
     "C06": _mach_prop(["symbolic bcrypt (the stored value verifies exactly the password it was made from); the 72-byte truncation of real bcrypt is known finding K2, exercised by the harness",
                        "token revocation is proven for UpdatePassword and for the remember hook on EventRecoverEnd under no storage fault"]),
 })
